@@ -352,3 +352,69 @@ def pipeline_dataset(seed, n_chroms=3, split_locus=True, chrom_names=None, reads
             pos = ext[1] + 3000
         assert pos < clen - 100, "chromosome too short for the generated loci"
     return ds, meta
+
+
+def antisense_dataset(seed, reference_antisense=True, n_chroms=2, reads_per=9):
+    """loci where genes of both strands overlap inside one read region, so that `TranscriptToGeneJoiner` sees, in one
+    call, (a) several novel same-strand isoforms that it legitimately joins into one gene, (b) a further same-strand
+    novel gene that stays separate, and (c) an overlapping gene of the OPPOSITE strand (position overlap far above the
+    joining threshold) - a reference gene on odd loci when `reference_antisense`, a novel gene otherwise.
+    The property requires every gene record to carry the strand of all its transcripts: the opposite-strand gene
+    must stay a gene of its own."""
+    ds = synth.Dataset(seed)
+    rng = ds.rng
+    rid = [0]
+
+    def reads_for(chrom, ex, strand, n):
+        for _ in range(n):
+            e = list(ex)
+            if strand == "+":
+                e[0] = (e[0][0] + rng.randint(0, 15), e[0][1])
+            else:
+                e[-1] = (e[-1][0], e[-1][1] - rng.randint(0, 15))
+            rid[0] += 1
+            ds.read_from_exons("q%d" % rid[0], chrom, e, polya=25 if strand == "+" else 0, polyt=25 if strand == "-" else 0)
+
+    def introns(ex):
+        return [(ex[i][1] + 1, ex[i + 1][0] - 1) for i in range(len(ex) - 1)]
+
+    for ci in range(n_chroms):
+        chrom = "chr%d" % (ci + 1)
+        ds.add_chrom(chrom, 60000)
+        pos = rng.randint(1500, 2500)
+        for li in range(3):
+            fwd = "+" if (li + ci) % 2 == 0 else "-"
+            rev = "-" if fwd == "+" else "+"
+            p = pos
+            w = rng.randint(180, 240)
+            gap = rng.randint(380, 460)
+            # forward-strand exon ladder E1..E4 (period w + 2*gap + w') with antisense exons in the middle of its introns
+            E = []
+            x = p
+            for _ in range(4):
+                E.append((x, x + w))
+                x += w + 2 * gap + 200
+            Gx = [(E[i][1] + gap // 2, E[i][1] + gap // 2 + 200 + gap) for i in range(3)]
+            Gx = [(a, min(b, E[i + 1][0] - 60)) for i, (a, b) in enumerate(Gx)]
+            iso_a = E
+            iso_b = [E[0], E[2], E[3]]
+            iso_c = [E[0], E[1], E[3]]
+            # a further same-strand novel gene overlapping the last exon only slightly (stays a gene of its own)
+            F = [(E[3][1] - 40, E[3][1] + 260), (E[3][1] + 700, E[3][1] + 950)]
+            for ex in (iso_a, iso_b, iso_c, F):
+                ds.plant_sites(chrom, introns(ex), fwd)
+            ds.plant_sites(chrom, introns(Gx), rev)
+            for ex in (iso_a, iso_b, iso_c):
+                reads_for(chrom, ex, fwd, reads_per)
+            reads_for(chrom, F, fwd, reads_per)
+            reads_for(chrom, Gx, rev, reads_per + 2)
+            if reference_antisense and li % 2 == 1:
+                ds.add_gene(chrom, "GA_%s_%d" % (chrom, li), rev, [("TA_%s_%d" % (chrom, li), Gx)], plant=False)
+            elif reference_antisense and li == 2:
+                ds.add_gene(chrom, "GF_%s_%d" % (chrom, li), fwd, [("TF_%s_%d" % (chrom, li), iso_a)], plant=False)
+            pos = F[-1][1] + rng.randint(2500, 4000)
+        # one plain annotated gene so that the annotation is never empty
+        ex = [(pos, pos + 200), (pos + 700, pos + 900)]
+        ds.add_gene(chrom, "GP_%s" % chrom, "+", [("TP_%s" % chrom, ex)])
+        reads_for(chrom, ex, "+", reads_per)
+    return ds
